@@ -415,13 +415,16 @@ def run(tier, seed):
     flush(cx, "corpus")
     fam = list(family_programs())
     for i, (label, prog) in enumerate(fam):
-        o = run_one(cx, label, prog, rehook=i % 2 == 1)
+        o = run_one(cx, label, prog, rehook=(i % 2 == 1 and prog["mode"] == "isolated"))
         pool.append((label, prog, o))
     flush(cx, "fam")
     n = 1800 if tier == "thorough" else 260
     for mode in ("isolated", "django"):
         for i, (label, prog) in enumerate(gen_programs(chk, n, mode)):
-            o = run_one(cx, label, prog, rehook=i % 2 == 1)
+            # every second isolated-mode program also injects in the deferred phase (on_render_before). Not in django mode:
+            # there self.input.context is the caller's live Context, whose provide layers are gone by then; the documented
+            # place of inject() is get_context_data, which is what the property observes
+            o = run_one(cx, label, prog, rehook=(i % 2 == 1 and mode == "isolated"))
             pool.append((label, prog, o))
             if i % 3 == 0:
                 od = run_one(cx, label + "/dynamic", prog, dynamic=True)
